@@ -48,6 +48,7 @@ def main():
     replay = None
     worker = None
     out = None
+    sequence = None
     i = 1
     while i < len(args):
         a = args[i]
@@ -65,6 +66,9 @@ def main():
         elif a == "--out":
             i += 1
             out = args[i]
+        elif a == "--sequence":
+            i += 1
+            sequence = args[i]
         i += 1
     if tier not in ("quick", "thorough"):
         tier = "quick"
@@ -82,6 +86,8 @@ def main():
         print(core.tb_text(e))
         return 2
 
+    if sequence:
+        return do_sequence(core, mod, sequence, out)
     if replay:
         return do_replay(core, mod, pid, replay)
     if worker is not None:
@@ -89,11 +95,26 @@ def main():
     return do_check(core, mod, pid, tier, seed)
 
 
+def do_sequence(core, mod, path, out):
+    """Run the cases of a sequence file in order in this (fresh) process; write the failures per position."""
+    with open(path) as f:
+        cases = json.load(f)["cases"]
+    res = {"fails": [], "error": None}
+    try:
+        for c in cases:
+            res["fails"].append([[k, core.short(d, 1500)] for k, d in core.replay_any(mod, c)])
+    except Exception as e:  # noqa
+        res["error"] = core.tb_text(e)
+    with open(out, "w") as f:
+        json.dump(res, f, default=repr)
+    return 0
+
+
 def do_replay(core, mod, pid, path):
     with open(path if os.path.isabs(path) or os.path.exists(path) else os.path.join(HERE, path)) as f:
         rec = json.load(f)
     try:
-        fails = list(mod.replay(rec["case"]))
+        fails = core.replay_any(mod, rec["case"])
     except Exception as e:  # noqa
         print("HARNESS-ERROR: replay raised %s" % core.fmt_exc(e))
         print(core.tb_text(e))
@@ -135,7 +156,7 @@ def check_known(core, mod, pid):
         if e["property"] != pid:
             continue
         try:
-            fails = list(mod.replay(e["witness"]))
+            fails = core.replay_any(mod, e["witness"])
         except Exception as ex:  # noqa
             raise core.HarnessError("witness replay for %s raised %s\n%s" % (e["key"], core.fmt_exc(ex), core.tb_text(ex)))
         keys = [k for k, _ in fails]
